@@ -330,9 +330,14 @@ func fromCallbacks(v *pw.Val) bool {
 		}
 		switch v.Kind {
 		case pw.KSlice:
+			if v.Path != "full" {
+				return false // a part of the list: some callbacks are left out
+			}
 			v = v.Src
 		case pw.KAppend:
-			if len(v.Elems) == 1 {
+			// a copy: append(empty, Callbacks...)
+			if len(v.Elems) == 1 && v.Op == token.ELLIPSIS && (v.Src == nil || v.Src.Kind == pw.KZero || v.Src.Kind == pw.KConst && v.Src.IsNil ||
+				v.Src.Kind == pw.KConv && v.Src.Src != nil && v.Src.Src.IsNil || v.Src.Kind == pw.KAlloc && len(v.Src.Elems) == 0 || v.Src.Kind == pw.KSlice) {
 				v = v.Elems[0]
 			} else {
 				return false
